@@ -43,7 +43,7 @@ def lower(tag, sources, defines=None, extra_flags=None, outdir=None):
         for f in lls: os.remove(f)
     return linked
 
-NATIVE_FLAGS = ['-std=c++11', '-O1', '-g', '-fno-omit-frame-pointer', '-fsanitize=address,undefined', '-fno-sanitize-recover=undefined',
+NATIVE_FLAGS = ['-std=c++11', '-O1', '-g', '-fno-omit-frame-pointer', '-fsanitize=address,undefined', '-fno-sanitize=alignment', '-fno-sanitize-recover=undefined',
                 '-w', '-I' + os.path.join(REPO, 'include'), '-I' + os.path.join(VERIF, 'harness'), '-I' + os.path.join(VERIF, 'stubs'),
                 '-DVF_NATIVE=1', '-DLIBNSTD_VERIF=1']
 
